@@ -5,18 +5,10 @@
 From Coq Require Import Lia.
 From Morph Require Import Base.UStr Gen.Tables Model.Terms Model.Data Model.Engine Model.Mapping Model.Spec
      Proofs.DataP Proofs.UStrP Proofs.SplitP Proofs.EscP.
+From Morph Require Export Model.Fragment.
 Local Open Scope N_scope.
 
 (* ---------------------------------------------------------------- well-formed templates *)
-Fixpoint flat (segs : list seg) : ustr :=
-  match segs with [] => [] | SLit c :: r => c :: flat r | SVar n :: r => 123 :: n ++ 125 :: flat r end.
-Fixpoint names (segs : list seg) : list ustr :=
-  match segs with [] => [] | SLit _ :: r => names r | SVar n :: r => n :: names r end.
-Definition plain_char (c : N) : bool := negb ((c =? 123) || (c =? 125) || (c =? 92)).
-Definition name_ok (n : ustr) : bool :=
-  match n with [] => false | _ => forallb plain_char n && negb (contains aux n) end.
-Fixpoint wf (segs : list seg) : bool :=
-  match segs with [] => true | SLit c :: r => plain_char c && wf r | SVar n :: r => name_ok n && wf r end.
 
 Lemma plain_char_iff c : plain_char c = true -> (c =? 123) = false /\ (c =? 125) = false /\ (c =? 92) = false.
 Proof. unfold plain_char. rewrite negb_true_iff, !orb_false_iff. tauto. Qed.
